@@ -227,7 +227,15 @@ theorem endAuthorKinds_norm (o : Ops) (s : MSt) (kind : Str) :
               by_cases k7 : (kind == S "owner") = true
               · simp only [k7, ↓reduceIte, Option.map_some, Option.some.injEq]
                 rw [normSt_eq_iff]; exact ⟨by simp only [(hpop _).1], (hpop _).2⟩
-              · simp only [k7, Bool.false_eq_true, ↓reduceIte, Option.map_none]
+              · simp only [k7, Bool.false_eq_true, ↓reduceIte]
+                by_cases k8 : (kind == S "cloud") = true
+                · simp only [k8, ↓reduceIte, Option.map_some, Option.some.injEq]
+                  exact pop_norm o s _
+                · simp only [k8, Bool.false_eq_true, ↓reduceIte]
+                  by_cases k9 : (kind == S "generator") = true
+                  · simp only [k9, ↓reduceIte, Option.map_some, Option.some.injEq]
+                    rw [normSt_eq_iff]; exact ⟨by simp only [popValue_norm, (hpop _).1], (hpop _).2⟩
+                  · simp only [k9, Bool.false_eq_true, ↓reduceIte, Option.map_none]
 
 theorem endLG_norm (o : Ops) (s : MSt) (kind : Str) : (endLG o (normSt s) kind).norm = (endLG o s kind).norm := by
   unfold endLG
